@@ -85,9 +85,13 @@ EX = [
     ('skipd_nowant', ">>> T({k}, 'zz') # doctest: +SKIP"),
     ('exc_note', ">>> e{k} = ValueError(T({k}, 'm'))\n>>> e{k}.add_note('a note')\n>>> raise e{k}"),
     ('exc_syntax', ">>> compile(T({k}, '1 +'), 's', 'eval')"),
+    # an option directive on a comment-only line *inside* a multi-line example: it belongs to that example only
+    ('skipd_ownline', ">>> print(T({k},\n... # doctest: +SKIP\n...   'zz'))"),
+    ('skipd_loopbody', ">>> for i in range(1):\n...     # doctest: +SKIP\n...     print(T({k}, 'zz'))"),
+    ('nwsd_ownline', ">>> print(T({k},\n... # doctest: +NORMALIZE_WHITESPACE\n...   'a   b'))"),
 ]
 EXD = dict(EX)
-SPECIAL_WANT = {'dir_space_skip': 'nope', 'ied_nested': 'Traceback (most recent call last):\nJSONDecodeError: whatever',
+SPECIAL_WANT = {'skipd_ownline': 'nope', 'skipd_loopbody': 'nope', 'nwsd_ownline': 'a b', 'dir_space_skip': 'nope', 'ied_nested': 'Traceback (most recent call last):\nJSONDecodeError: whatever',
                 'dir_comma': '[0, ..., 19] a b', 'dir_space': '[0, ..., 19] a b', 'ell': '[0, 1, ..., 19]', 'skipd': 'nope', 'nws': 'a b',
                 'ied': 'Traceback (most recent call last):\nValueError: other',
                 'raise_stack': 'Traceback (most recent call last):\n  File "<stdin>", line 1, in <module>\nKeyError: \'kk\''}
